@@ -47,11 +47,11 @@ def main():
                             "known_finding_hits": tot["known_finding_hits"], "harness_errors": tot["harness_errors"]}}
         cov.setdefault("sub_checks", {})[f"libfuzzer/{target}"] = sub
         cov["evaluations"] = int(cov.get("evaluations", 0)) + tot["decoded"]
-        # non-trivial cases of the fuzz stage are counted per execution that libFuzzer kept distinct inputs for; they are
-        # not deduplicated against the proptest stage, so they are reported in the sub-check only and not added here
+        # non-trivial cases of the fuzz stage are deduplicated per worker (hash of the decoded case) but not against the
+        # proptest stage, so they are reported in the sub-check only and not added to the run's total
         cov.setdefault("notes", []).append(
             f"libFuzzer stage {target}: {workers} workers, {units} executed units, {tot['decoded']} decoded into cases, "
-            f"{tot['nontrivial']} non-trivial by the same rule (not added to distinct_nontrivial: not deduplicated against the proptest stage)")
+            f"{tot['nontrivial']} distinct non-trivial by the same rule (distinct per worker; reported in the sub-check only, not added to the run's distinct_nontrivial, which is not deduplicated across stages)")
         for s in samples[:3]:
             cov.setdefault("samples", []).append({"sub": f"libfuzzer/{target}", "case_debug": s})
         if "libFuzzer" not in cov.get("rule", ""):
